@@ -283,8 +283,11 @@ class Check(object):
             json.dump(evidence, f, indent=1, default=str)
         for name, text in self.known:
             print('KNOWN-FINDING: property=%s %s' % (self.prop, text))
-        for name, path, suffix in self.violations:
+        for name, path, suffix in self.violations[:12]:
             print('VIOLATION property=%s replay=%s%s' % (self.prop, path, suffix))
+        if len(self.violations) > 12:
+            print('... and %d more violated obligations (all listed in evidence/%s.json and under replays/%s/)' %
+                  (len(self.violations) - 12, self.prop, self.prop))
         for u in self.undecided:
             print('UNDECIDED obligation=%s backend=%s %s' % (u[0], u[1], str(u[2])[:200]))
         for e in self.engine_errors:
